@@ -1,6 +1,7 @@
 /-
-  Rbgp.Rib.ProofsC15 — the C15 master theorem (partial: outside the two open findings) and the
-  refutation of the full-strength statement.
+  Rbgp.Rib.ProofsC15 — the C15 theorems: the limit counter of a session follows the recount of the
+  session's own paths (`GInv`), the partial master theorem (the reference checker accepts every run of a
+  case with one session per limited peer) and the refutation of the full-strength statement.
 -/
 import Rbgp.Rib.CtrFacts
 import Rbgp.Rib.ObsC15
@@ -10,34 +11,51 @@ open SpecC15
 
 /-! ## The histories covered -/
 
-/-- histories outside the open finding (and inside what the harness can produce): a session with a
-    prefix limit is the only source of its peer address; a stale-path purge of such a peer is handed that
-    session's counter or none, and a purge is never handed the counter of a limited session of ANOTHER
-    peer; the history is shorter than 2^63 steps (so that no honest 64-bit count reaches the
-    "underflow" half). -/
-structure Case.PlainLimits (c : Case) : Prop where
-  oneSession : ∀ s1 ∈ c.srcs, ∀ s2 ∈ c.srcs, s1.addr = s2.addr → s1.lim.isSome = true → s1 = s2
-  purgeCtr : ∀ op ∈ c.ops, ∀ s ∈ c.srcs, s.lim.isSome = true →
-    (match op with
-     | .dropStale a _ ctr | .dropLlgr a _ ctr | .dropNoLlgr a _ ctr =>
-        s.addr = a → ctr = none ∨ ctr = some s.id
-     | _ => True)
-  ctrPeer : ∀ op ∈ c.ops, ∀ i s, c.srcs[i]? = some s → s.lim.isSome = true →
-    (match op with
-     | .dropStale a _ ctr | .dropLlgr a _ ctr | .dropNoLlgr a _ ctr => ctr = some i → s.addr = a
-     | _ => True)
-  short : c.ops.length < SpecC15.HALF
+/-- what both codecs guarantee about a stale-path purge that is handed a limit counter: the named
+    source exists, has the purged address and is the only source of the case with that address (so
+    that settling the counter by address is settling it by source) -/
+def PurgeArgOk (c : Case) (a : Nat) (ctr : Option Nat) : Prop :=
+  ∀ i, ctr = some i → ∃ s, c.srcs[i]? = some s ∧ s.addr = a ∧ ∀ s' ∈ c.srcs, s'.addr = a → s'.id = i
 
-/-- the operations after which the sessions of peer `a` in family `f` no longer use their counter:
-    the peer is dropped or re-marked stale, or its stale paths are purged without a counter -/
-def Op.endsSessions (c : Case) : Op → Option (Nat × Fam)
-  | .drop a f => some (a, f)
-  | .restale a f => some (a, f)
-  | .restaleLlgr a f => some (a, f)
-  | .dropStale a f ctr => if (ctr.bind (c.srcs[·]?)).isNone then some (a, f) else none
-  | .dropLlgr a f ctr => if (ctr.bind (c.srcs[·]?)).isNone then some (a, f) else none
-  | .dropNoLlgr a f ctr => if (ctr.bind (c.srcs[·]?)).isNone then some (a, f) else none
-  | _ => none
+def Op.PurgeCtrOk (c : Case) : Op → Prop
+  | .dropStale a _ ctr => PurgeArgOk c a ctr
+  | .dropLlgr a _ ctr => PurgeArgOk c a ctr
+  | .dropNoLlgr a _ ctr => PurgeArgOk c a ctr
+  | _ => True
+
+def Case.PurgeCtrOk (c : Case) : Prop := ∀ op ∈ c.ops, op.PurgeCtrOk c
+
+/-- fewer than 2^63 steps, so that no honest 64-bit count reaches the "underflow" half -/
+def Case.Short (c : Case) : Prop := c.ops.length < SpecC15.HALF
+
+/-- a session with a prefix limit is the only source of its peer address (no restarted session of a
+    limited peer: the histories outside the open finding) -/
+def Case.OneSession (c : Case) : Prop :=
+  ∀ s1 ∈ c.srcs, ∀ s2 ∈ c.srcs, s1.addr = s2.addr → s1.lim.isSome = true → s1 = s2
+
+instance (c : Case) : Decidable c.Short := by unfold Case.Short; exact inferInstance
+instance (c : Case) : Decidable c.OneSession := by unfold Case.OneSession; exact inferInstance
+
+/-- the operations that settle the counter of session `s` in family `f` -/
+def Op.targets (s : Src) (f : Fam) : Op → Bool
+  | .insert src fam .. => fam == f && src.id == s.id
+  | .remove src fam .. => fam == f && src.id == s.id
+  | .dropStale a fam ctr => fam == f && a == s.addr && ctr.isSome
+  | .dropLlgr a fam ctr => fam == f && a == s.addr && ctr.isSome
+  | .dropNoLlgr a fam ctr => fam == f && a == s.addr && ctr.isSome
+  | _ => false
+
+/-- the operations that may take paths of session `s` in family `f` away without settling its counter:
+    an announcement / withdrawal by ANOTHER session of the same peer, a drop of the peer, a purge of
+    its stale paths that is handed no counter -/
+def Op.disturbs (s : Src) (f : Fam) : Op → Bool
+  | .insert src fam .. => fam == f && src.addr == s.addr && src.id != s.id
+  | .remove src fam .. => fam == f && src.addr == s.addr && src.id != s.id
+  | .drop a fam => fam == f && a == s.addr
+  | .dropStale a fam ctr => fam == f && a == s.addr && ctr.isNone
+  | .dropLlgr a fam ctr => fam == f && a == s.addr && ctr.isNone
+  | .dropNoLlgr a fam ctr => fam == f && a == s.addr && ctr.isNone
+  | _ => false
 
 end Rbgp.Rib
 
@@ -165,17 +183,239 @@ theorem mem_dead_kill (c : Case) (st : St) (a : Nat) (f0 : Fam) (i : Nat) (f : F
     · exact Or.inl ⟨l, List.mem_filter.mpr ⟨hl, by simp [hf, ha]⟩, rfl⟩
     · exact Or.inr h
 
-/-! ## The invariant of the checker state along a run -/
+/-! ## One step, seen from one limited session -/
+
+section Count
+variable {c : Case} {g : Nat → Fam} {t t' : Table} {r : Res}
+
+theorem entries_wf (hinv : Inv c g t) {f : Fam} {n : Net} {x : Entry} (hx : x ∈ t.entries f n) : x.src.WF c := by
+  unfold Table.entries at hx
+  cases hl : alookup n (t.rib f).dests with
+  | none => rw [hl] at hx; simp at hx
+  | some d =>
+    rw [hl] at hx
+    exact (((hinv.rib f).dest _ (alookup_some_mem hl)).srcOk x hx).1
+
+/-- with one session per limited peer, the recount by source is the recount by address -/
+theorem sess_eq_recv (hone : c.OneSession) {fl : Flags} {f : Fam} {rib : Rib} (hr : RibInv c g fl f rib)
+    {s : Src} (hw : s.WF c) (hl : s.lim.isSome = true) : sessCount s.id rib = recvCount s.addr rib := by
+  unfold sessCount cntBy recvCount
+  congr 1
+  apply List.filter_congr
+  intro nd hnd
+  apply any_congr_of_mem
+  intro e he
+  have hew := ((hr.dest nd hnd).srcOk e he).1
+  rw [Bool.eq_iff_iff, beq_iff_eq]
+  simp only [sameAddr, beq_iff_eq]
+  constructor
+  · intro h; rw [src_eq_of_id hew hw h]
+  · intro h
+    have := hone s (src_mem_of_wf hw) e.src (src_mem_of_wf hew) h.symm hl
+    rw [← this]
+
+/-- the three outcomes of a step for the pair (recount, counter) of one limited session: both move
+    together (by at most one up, or down), or the step took paths away without settling the counter -/
+def Moved (t t' : Table) (s : Src) (f : Fam) (tg dist : Bool) : Prop :=
+  (∃ up dn : Nat, up ≤ 1 ∧ dn ≤ sessCount s.id (t.rib f) ∧
+      sessCount s.id (t'.rib f) + dn = sessCount s.id (t.rib f) + up ∧
+      t'.ctr (s.id, f) + dn = t.ctr (s.id, f) + up ∧ (tg = false → up = 0 ∧ dn = 0)) ∨
+  (dist = true ∧ sessCount s.id (t'.rib f) ≤ sessCount s.id (t.rib f) ∧ t'.ctr (s.id, f) = t.ctr (s.id, f))
+
+theorem moved_same {s : Src} {f : Fam} (tg dist : Bool) (h1 : sessCount s.id (t'.rib f) = sessCount s.id (t.rib f))
+    (h2 : t'.ctr (s.id, f) = t.ctr (s.id, f)) : Moved t t' s f tg dist :=
+  Or.inl ⟨0, 0, by omega, by omega, by omega, by omega, fun _ => ⟨rfl, rfl⟩⟩
+
+theorem count_purge (hinv : Inv c g t) {a : Nat} {f0 : Fam} {ctr : Option Nat} (hpo : PurgeArgOk c a ctr)
+    (hspec : PurgeSpec t t' a f0 ctr) {s : Src} (hw : s.WF c) (f : Fam)
+    (hge : sessCount s.id (t.rib f) ≤ t.ctr (s.id, f)) (hlt : t.ctr (s.id, f) < HALF) :
+    Moved t t' s f (f0 == f && a == s.addr && ctr.isSome) (f0 == f && a == s.addr && ctr.isNone) := by
+  obtain ⟨gone, hctrs, hle, hsame, hagree⟩ := hspec
+  by_cases htg : s.addr = a ∧ f = f0
+  · obtain ⟨rfl, rfl⟩ := htg
+    cases hc : ctr with
+    | none =>
+      rw [hc] at hctrs
+      exact Or.inr ⟨by simp, hle s.id f, ctr_of_ctrs_eq hctrs _⟩
+    | some i =>
+      obtain ⟨s0, hs0, _, hall⟩ := hpo i hc
+      have hi : s.id = i := hall s (src_mem_of_wf hw) rfl
+      subst hi
+      have hag := hagree s.id (by
+        intro nd hnd e he
+        have hew := (((hinv.rib f).dest nd hnd).srcOk e he).1
+        constructor
+        · intro h; rw [src_eq_of_id hew hw h]
+        · intro h; exact hall e.src (src_mem_of_wf hew) h)
+      rw [hc] at hctrs
+      refine Or.inl ⟨0, gone, by omega, by omega, by omega, ?_, fun h => absurd h (by simp)⟩
+      rw [ctr_aset_self (show t'.ctrs = aset (s.id, f) _ t.ctrs from hctrs),
+        atomicDecN_small (by omega) hlt]
+      omega
+  · have h1 : sessCount s.id (t'.rib f) = sessCount s.id (t.rib f) := by
+      apply hsame
+      intro hf nd hnd e he hei
+      have hew := (((hinv.rib f0).dest nd hnd).srcOk e he).1
+      rw [src_eq_of_id hew hw hei]
+      exact fun ha => htg ⟨ha, hf⟩
+    refine moved_same _ _ h1 ?_
+    cases hc : ctr with
+    | none => rw [hc] at hctrs; exact ctr_of_ctrs_eq hctrs _
+    | some i =>
+      rw [hc] at hctrs
+      have hne : (s.id, f) ≠ (i, f0) := by
+        intro e
+        obtain ⟨e1, e2⟩ := Prod.mk.inj e
+        subst e1
+        obtain ⟨s0, hs0, ha0, _⟩ := hpo s.id hc
+        rw [show c.srcs[s.id]? = some s from hw, Option.some.injEq] at hs0
+        subst hs0
+        exact htg ⟨ha0, e2⟩
+      exact ctr_aset_ne (show t'.ctrs = aset (i, f0) _ t.ctrs from hctrs) hne
+
+theorem count_other {src : Src} {fam : Fam} {net : Net} (hinv : Inv c g t) (hO : OtherSess t t' src fam net)
+    {s : Src} (hw : s.WF c) (f : Fam) (htg : ¬ (src.id = s.id ∧ fam = f))
+    (hc : t'.ctr (s.id, f) = t.ctr (s.id, f)) :
+    Moved t t' s f (fam == f && src.id == s.id) (fam == f && src.addr == s.addr && src.id != s.id) := by
+  have hkk : (s.id, f) ≠ (src.id, fam) := by
+    intro e
+    obtain ⟨e1, e2⟩ := Prod.mk.inj e
+    exact htg ⟨e1.symm, e2.symm⟩
+  by_cases hd : fam = f ∧ src.addr = s.addr
+  · obtain ⟨rfl, ha⟩ := hd
+    have hid : src.id ≠ s.id := fun h => htg ⟨h, rfl⟩
+    exact Or.inr ⟨by simp [ha, hid], hO.1 s.id fam hkk, hc⟩
+  · refine moved_same _ _ (hO.2 s.id f hkk ?_) hc
+    intro hf x hx hxi
+    rw [src_eq_of_id (entries_wf hinv hx) hw hxi]
+    exact fun ha => hd ⟨hf.symm, ha.symm⟩
+
+/-- **one step, one session** -/
+theorem count_step {op : Op} (hpo : op.PurgeCtrOk c) (hwf : op.WF c g) (hinv : Inv c g t)
+    (hcf : CtrFacts t op t' r) {s : Src} (hw : s.WF c) (hl : s.lim.isSome = true) (f : Fam)
+    (hge : sessCount s.id (t.rib f) ≤ t.ctr (s.id, f)) (hlt : t.ctr (s.id, f) < HALF) :
+    Moved t t' s f (op.targets s f) (op.disturbs s f) := by
+  cases op with
+  | insert src fam net rpid nh attr filtered nhInv =>
+    obtain ⟨_, _, hlimit, hok⟩ := hcf
+    by_cases hr : r = .limit
+    · rw [(hlimit hr).2.2]; exact moved_same _ _ rfl rfl
+    · obtain ⟨h1, h3, _, hO⟩ := hok hr
+      by_cases htg : src.id = s.id ∧ fam = f
+      · obtain ⟨hid, rfl⟩ := htg
+        have : src = s := src_eq_of_id hwf.1 hw hid
+        subst this
+        refine Or.inl ⟨(!(t.entries fam net).any fun e => e.src.id == src.id).toNat, 0, ?_, by omega,
+          by rw [h1]; rfl, ?_, fun h => absurd h (by simp [Op.targets])⟩
+        · cases (!(t.entries fam net).any fun e => e.src.id == src.id) <;> simp
+        · rw [hl] at h3
+          cases hn : (!(t.entries fam net).any fun e => e.src.id == src.id)
+          · rw [hn] at h3
+            simp only [Bool.false_and, Bool.false_eq_true, if_false] at h3
+            rw [ctr_of_ctrs_eq h3]; rfl
+          · rw [hn] at h3
+            simp only [Bool.and_self, if_true] at h3
+            rw [ctr_aset_self h3, atomicInc_small hlt]
+            rfl
+      · refine count_other hinv hO hw f htg ?_
+        have hkk : (s.id, f) ≠ (src.id, fam) := by
+          intro e
+          obtain ⟨e1, e2⟩ := Prod.mk.inj e
+          exact htg ⟨e1.symm, e2.symm⟩
+        split at h3
+        · exact ctr_aset_ne h3 hkk
+        · exact ctr_of_ctrs_eq h3 _
+  | remove src fam net rpid =>
+    obtain ⟨_, _, d, h1, h3, hO⟩ := hcf
+    by_cases htg : src.id = s.id ∧ fam = f
+    · obtain ⟨hid, rfl⟩ := htg
+      have : src = s := src_eq_of_id hwf.1 hw hid
+      subst this
+      refine Or.inl ⟨0, d.toNat, by omega, by omega, by omega, ?_, fun h => absurd h (by simp [Op.targets])⟩
+      rw [hl] at h3
+      cases d
+      · simp only [Bool.false_and, Bool.false_eq_true, if_false] at h3
+        rw [ctr_of_ctrs_eq h3]; rfl
+      · simp only [Bool.and_self, if_true] at h3
+        simp only [Bool.toNat_true] at h1 ⊢
+        rw [ctr_aset_self h3, atomicDec_pos (by omega)]
+        omega
+    · refine count_other hinv hO hw f htg ?_
+      have hkk : (s.id, f) ≠ (src.id, fam) := by
+        intro e
+        obtain ⟨e1, e2⟩ := Prod.mk.inj e
+        exact htg ⟨e1.symm, e2.symm⟩
+      split at h3
+      · exact ctr_aset_ne h3 hkk
+      · exact ctr_of_ctrs_eq h3 _
+  | drop a f0 =>
+    have := count_purge hinv (ctr := none) (fun i h => by cases h) hcf.spec hw f hge hlt
+    simpa [Op.targets, Op.disturbs] using this
+  | dropStale a f0 ctr => exact count_purge hinv hpo hcf.spec hw f hge hlt
+  | dropLlgr a f0 ctr => exact count_purge hinv hpo hcf.spec hw f hge hlt
+  | dropNoLlgr a f0 ctr => exact count_purge hinv hpo hcf.spec hw f hge hlt
+  | restale a f0 => exact moved_same _ _ (hcf.spec.1 _ _) (ctr_of_ctrs_eq hcf.spec.2 _)
+  | restaleLlgr a f0 => exact moved_same _ _ (hcf.spec.1 _ _) (ctr_of_ctrs_eq hcf.spec.2 _)
+  | nhValidity nh reachable => exact moved_same _ _ (hcf.spec.1 _ _) (ctr_of_ctrs_eq hcf.spec.2 _)
+  | startDeferral fam => exact moved_same _ _ (hcf.spec.1 _ _) (ctr_of_ctrs_eq hcf.spec.2 _)
+  | endDeferral fam => exact moved_same _ _ (hcf.spec.1 _ _) (ctr_of_ctrs_eq hcf.spec.2 _)
+
+end Count
+
+/-! ## The counters along a run (any number of sessions per peer) -/
+
+/-- after `k` steps (the operations `done`): every recount is at most `k`; the counter of a limited
+    session is at least the recount of its own paths and at most `k`; and it EQUALS that recount as
+    long as no operation took paths of the session away without settling its counter -/
+structure GInv (c : Case) (t : Table) (k : Nat) (done : List Op) : Prop where
+  bound : ∀ a f, recvCount a (t.rib f) ≤ k ∧ accCount a (t.rib f) ≤ k
+  ge : ∀ s : Src, s.WF c → s.lim.isSome = true → ∀ f,
+      sessCount s.id (t.rib f) ≤ t.ctr (s.id, f) ∧ t.ctr (s.id, f) ≤ k
+  eq : ∀ s : Src, s.WF c → s.lim.isSome = true → ∀ f, (∀ o ∈ done, o.disturbs s f = false) →
+      t.ctr (s.id, f) = sessCount s.id (t.rib f)
+
+theorem ginv_empty (c : Case) : GInv c {} 0 [] := by
+  have hr : ∀ a f, recvCount a (({} : Table).rib f) = 0 := by intro a f; cases f <;> rfl
+  have ha : ∀ a f, accCount a (({} : Table).rib f) = 0 := by intro a f; cases f <;> rfl
+  have hs : ∀ i f, sessCount i (({} : Table).rib f) = 0 := by intro i f; cases f <;> rfl
+  refine ⟨?_, ?_, ?_⟩
+  · intro a f; rw [hr, ha]; exact ⟨Nat.le_refl _, Nat.le_refl _⟩
+  · intro s _ _ f; rw [hs]; exact ⟨Nat.zero_le _, Nat.le_refl _⟩
+  · intro s _ _ f _; rw [hs]; rfl
+
+theorem ginv_step {c : Case} {g : Nat → Fam} {t t' : Table} {r : Res} {k : Nat} {done : List Op} {op : Op}
+    (hpo : op.PurgeCtrOk c) (hwf : op.WF c g) (hk : k < HALF) (hinv : Inv c g t) (hcf : CtrFacts t op t' r)
+    (hg : GInv c t k done) : GInv c t' (k + 1) (done ++ [op]) := by
+  refine ⟨?_, ?_, ?_⟩
+  · intro a f
+    have := hg.bound a f
+    have := hcf.recvLe a f
+    have := hcf.accLe a f
+    omega
+  · intro s hw hl f
+    have h0 := hg.ge s hw hl f
+    rcases count_step hpo hwf hinv hcf hw hl f h0.1 (by omega) with ⟨up, dn, h1, h2, h3, h4, _⟩ | ⟨_, h3, h4⟩
+    · omega
+    · omega
+  · intro s hw hl f hno
+    have h0 := hg.ge s hw hl f
+    have he := hg.eq s hw hl f (fun o ho => hno o (List.mem_append_left _ ho))
+    rcases count_step hpo hwf hinv hcf hw hl f h0.1 (by omega) with ⟨up, dn, h1, h2, h3, h4, _⟩ | ⟨hd, _, _⟩
+    · omega
+    · rw [hno op (List.mem_append_right _ List.mem_cons_self)] at hd
+      exact absurd hd (by simp)
+
+/-! ## The invariant of the checker state along a run (one session per limited peer) -/
 
 structure SInv (c : Case) (t : Table) (st : St) (k : Nat) : Prop where
   prev : ∀ f, famDests st.prev f = (famObs t f).dests
   bound : ∀ a f, recvCount a (t.rib f) ≤ k ∧ accCount a (t.rib f) ≤ k
   ctr : ∀ s : Src, s.WF c → s.lim.isSome = true → ∀ f,
-      recvCount s.addr (t.rib f) ≤ t.ctr (s.id, f) ∧ t.ctr (s.id, f) ≤ k
+      sessCount s.id (t.rib f) ≤ t.ctr (s.id, f) ∧ t.ctr (s.id, f) ≤ k
   eq : ∀ s : Src, s.WF c → s.lim.isSome = true → ∀ f, (s.id, f) ∉ st.dead →
-      t.ctr (s.id, f) = recvCount s.addr (t.rib f)
+      t.ctr (s.id, f) = sessCount s.id (t.rib f)
   idle : ∀ s : Src, s.WF c → s.lim.isSome = true → ∀ f, (s.id, f) ∉ st.dead → ¬ isLive st.live s.id f →
-      recvCount s.addr (t.rib f) = 0
+      sessCount s.id (t.rib f) = 0
   live : ∀ i f, isLive st.live i f → (i, f) ∉ st.dead ∧ ∃ s : Src, s.WF c ∧ s.lim.isSome = true ∧ i = s.id
 
 section Trans
@@ -189,8 +429,8 @@ theorem sinv_A (hs : SInv c t st k) {live' : List Live} {prev' : List FamObs} (a
     (hbound : ∀ a f, recvCount a (t'.rib f) ≤ recvCount a (t.rib f) + 1 ∧
       accCount a (t'.rib f) ≤ accCount a (t.rib f) + 1)
     (hcnt : ∀ s : Src, s.WF c → s.lim.isSome = true → ∀ f, ∃ up dn : Nat,
-        up ≤ 1 ∧ dn ≤ recvCount s.addr (t.rib f) ∧
-        recvCount s.addr (t'.rib f) + dn = recvCount s.addr (t.rib f) + up ∧
+        up ≤ 1 ∧ dn ≤ sessCount s.id (t.rib f) ∧
+        sessCount s.id (t'.rib f) + dn = sessCount s.id (t.rib f) + up ∧
         t'.ctr (s.id, f) + dn = t.ctr (s.id, f) + up ∧ (act ≠ some (s.id, f) → up = 0 ∧ dn = 0)) :
     SInv c t' { live := live', dead := st.dead, prev := prev' } (k + 1) := by
   refine ⟨hprev, ?_, ?_, ?_, ?_, ?_⟩
@@ -221,54 +461,47 @@ theorem sinv_A (hs : SInv c t st k) {live' : List Live} {prev' : List FamObs} (a
 /-- a step that ends the sessions of peer `a` in family `f0` -/
 theorem sinv_K (hs : SInv c t st k) (a : Nat) (f0 : Fam) {prev' : List FamObs}
     (hprev : ∀ f, famDests prev' f = (famObs t' f).dests)
-    (hacc : ∀ a f, accCount a (t'.rib f) ≤ accCount a (t.rib f) + 1)
-    (hle : ∀ a' f', recvCount a' (t'.rib f') ≤ recvCount a' (t.rib f'))
-    (hsame : ∀ a' f', (a', f') ≠ (a, f0) → recvCount a' (t'.rib f') = recvCount a' (t.rib f'))
-    (hctr : ∀ s : Src, s.WF c → ∀ f, t'.ctr (s.id, f) = t.ctr (s.id, f)) :
+    (hbound : ∀ a f, recvCount a (t'.rib f) ≤ recvCount a (t.rib f) + 1 ∧
+      accCount a (t'.rib f) ≤ accCount a (t.rib f) + 1)
+    (hcnt : ∀ s : Src, s.WF c → s.lim.isSome = true → ∀ f,
+      sessCount s.id (t'.rib f) ≤ sessCount s.id (t.rib f) ∧ t'.ctr (s.id, f) = t.ctr (s.id, f) ∧
+      (¬ (f = f0 ∧ addrOf c s.id = some a) → sessCount s.id (t'.rib f) = sessCount s.id (t.rib f))) :
     SInv c t' { live := deactivate c st.live a f0,
                 dead := ((st.live.filter fun l => l.fam = f0 && addrOf c l.src == some a).map
                   fun l => (l.src, l.fam)) ++ st.dead,
                 prev := prev' } (k + 1) := by
-  have hm : ∀ s : Src, s.WF c → ∀ f, ¬ (f = f0 ∧ addrOf c s.id = some a) →
-      recvCount s.addr (t'.rib f) = recvCount s.addr (t.rib f) := by
-    intro s hw f hn
-    apply hsame
-    intro e
-    cases e
-    exact hn ⟨rfl, addrOf_wf hw⟩
   refine ⟨hprev, ?_, ?_, ?_, ?_, ?_⟩
   · intro a' f
     have h1 := hs.bound a' f
-    have h2 := hle a' f
-    have h3 := hacc a' f
+    have h2 := hbound a' f
     omega
   · intro s hw hl f
     have := hs.ctr s hw hl f
-    have := hle s.addr f
-    rw [hctr s hw]
+    obtain ⟨h1, h2, _⟩ := hcnt s hw hl f
+    rw [h2]
     omega
   · intro s hw hl f hd
     simp only [] at hd
     rw [mem_dead_kill, not_or] at hd
-    rw [hctr s hw]
+    obtain ⟨h1, h2, h3⟩ := hcnt s hw hl f
+    rw [h2]
     by_cases hq : f = f0 ∧ addrOf c s.id = some a
     · have hn : ¬ isLive st.live s.id f := fun h => hd.1 ⟨h, hq⟩
       have h0 := hs.idle s hw hl f hd.2 hn
       have := hs.eq s hw hl f hd.2
-      have := hle s.addr f
       omega
-    · rw [hm s hw f hq]; exact hs.eq s hw hl f hd.2
+    · rw [h3 hq]; exact hs.eq s hw hl f hd.2
   · intro s hw hl f hd hnl
     simp only [] at hd hnl
     rw [mem_dead_kill, not_or] at hd
     rw [isLive_deactivate] at hnl
+    obtain ⟨h1, h2, h3⟩ := hcnt s hw hl f
     by_cases hq : f = f0 ∧ addrOf c s.id = some a
     · have hn : ¬ isLive st.live s.id f := fun h => hd.1 ⟨h, hq⟩
       have h0 := hs.idle s hw hl f hd.2 hn
-      have := hle s.addr f
       omega
     · have hn : ¬ isLive st.live s.id f := fun h => hnl ⟨h, hq⟩
-      rw [hm s hw f hq]; exact hs.idle s hw hl f hd.2 hn
+      rw [h3 hq]; exact hs.idle s hw hl f hd.2 hn
   · intro i f h
     simp only [] at h ⊢
     rw [isLive_deactivate] at h
@@ -283,24 +516,6 @@ end Trans
 section Step
 variable {c : Case} {g : Nat → Fam} {t t' : Table} {st : St} {k : Nat} {r : Res}
 
-theorem addr_ne_of_id_ne (hp : c.PlainLimits) {s src : Src} (hw : s.WF c) (hl : s.lim.isSome = true)
-    (hsrc : src.WF c) (hne : src.id ≠ s.id) : s.addr ≠ src.addr := by
-  intro e
-  have := hp.oneSession s (src_mem_of_wf hw) src (src_mem_of_wf hsrc) e hl
-  subst this
-  exact hne rfl
-
-theorem key_ne_of_not_tg (hp : c.PlainLimits) {s src : Src} (hw : s.WF c) (hl : s.lim.isSome = true)
-    (hsrc : src.WF c) {f fam : Fam} (htg : ¬ (src.id = s.id ∧ fam = f)) :
-    (s.addr, f) ≠ (src.addr, fam) ∧ (s.id, f) ≠ (src.id, fam) := by
-  constructor
-  · intro e
-    obtain ⟨e1, e2⟩ := Prod.mk.inj e
-    exact addr_ne_of_id_ne hp hw hl hsrc (fun h => htg ⟨h, e2.symm⟩) e1
-  · intro e
-    obtain ⟨e1, e2⟩ := Prod.mk.inj e
-    exact htg ⟨e1.symm, e2.symm⟩
-
 theorem act_of_src (st : St) (src : Src) (fam : Fam) (i : Nat) (f : Fam) :
     (src.lim.isSome = true ∧ (src.id, fam) ∉ st.dead ∧ i = src.id ∧ f = fam) ↔
       ((if src.lim.isSome then some (src.id, fam) else none) = some (i, f) ∧ (i, f) ∉ st.dead) := by
@@ -311,247 +526,151 @@ theorem act_of_src (st : St) (src : Src) (fam : Fam) (i : Nat) (f : Fam) :
     · rintro ⟨hd, rfl, rfl⟩; exact ⟨⟨rfl, rfl⟩, hd⟩
     · rintro ⟨⟨rfl, rfl⟩, hd⟩; exact ⟨hd, rfl, rfl⟩
 
-theorem sinv_insert (hp : c.PlainLimits) (hk : k < HALF) (hs : SInv c t st k) {src : Src} {fam : Fam} {net : Net}
-    {rpid : Nat} {nh : Option Nat} {attr : Attrs} {filtered nhInv : Bool} (hsrc : src.WF c)
-    (hcf : CtrFacts t (.insert src fam net rpid nh attr filtered nhInv) t' r) {prev' : List FamObs}
-    (hprev : ∀ f, famDests prev' f = (famObs t' f).dests) :
-    SInv c t' { live := activate c st src fam, dead := st.dead, prev := prev' } (k + 1) := by
-  obtain ⟨hacc, hlimit, hok⟩ := hcf
-  refine sinv_A hs (if src.lim.isSome then some (src.id, fam) else none) ?_ ?_ hprev ?_ ?_
-  · intro i f
-    rw [isLive_activate hp.oneSession (fun i f h => (hs.live i f h).2) (fun _ => hsrc) fam i f, act_of_src]
-  · intro i f h
-    cases hl : src.lim.isSome
-    · rw [hl] at h; simp at h
-    · rw [hl] at h
-      simp only [if_true, Option.some.injEq, Prod.mk.injEq] at h
-      exact ⟨src, hsrc, hl, h.1.symm⟩
-  · intro a f
-    refine ⟨?_, hacc a f⟩
-    by_cases hr : r = .limit
-    · rw [(hlimit hr).2.2]; omega
-    · obtain ⟨h1, h2, _, _⟩ := hok hr
-      by_cases hkey : (a, f) = (src.addr, fam)
-      · cases hkey
-        rw [h1]
-        cases (!(t.entries fam net).any (sameAddr src.addr)) <;> simp
-      · rw [h2 a f hkey]; omega
-  · intro s hw hl f
-    by_cases hr : r = .limit
-    · rw [(hlimit hr).2.2]
-      exact ⟨0, 0, by omega, by omega, rfl, rfl, fun _ => ⟨rfl, rfl⟩⟩
-    · obtain ⟨h1, h2, h3, _⟩ := hok hr
-      by_cases htg : src.id = s.id ∧ fam = f
-      · obtain ⟨hid, rfl⟩ := htg
-        have : src = s := src_eq_of_id hsrc hw hid
-        subst this
-        refine ⟨(!(t.entries fam net).any (sameAddr src.addr)).toNat, 0, ?_, by omega, by rw [h1]; rfl, ?_,
-          fun h => absurd (by rw [hl]; rfl) h⟩
-        · cases (!(t.entries fam net).any (sameAddr src.addr)) <;> simp
-        · rw [hl] at h3
-          cases hn : (!(t.entries fam net).any (sameAddr src.addr))
-          · rw [hn] at h3
-            simp only [Bool.false_and, Bool.false_eq_true, if_false] at h3
-            rw [ctr_of_ctrs_eq h3]; rfl
-          · rw [hn] at h3
-            simp only [Bool.and_self, if_true] at h3
-            rw [ctr_aset_self h3, atomicInc_small (by have := (hs.ctr src hw hl fam).2; omega)]
-            rfl
-      · obtain ⟨ha, hkk⟩ := key_ne_of_not_tg hp hw hl hsrc htg
-        refine ⟨0, 0, by omega, by omega, by rw [h2 _ _ ha], ?_, fun _ => ⟨rfl, rfl⟩⟩
-        split at h3
-        · rw [ctr_aset_ne h3 hkk]
-        · rw [ctr_of_ctrs_eq h3]
+/-- what a step that does not end sessions needs from `count_step` -/
+theorem cnt_of_moved {s : Src} {f : Fam} {tg dist : Bool} {act : Option (Nat × Fam)}
+    (h : Moved t t' s f tg dist) (hd : dist = false) (hta : tg = true → act = some (s.id, f)) :
+    ∃ up dn : Nat, up ≤ 1 ∧ dn ≤ sessCount s.id (t.rib f) ∧
+      sessCount s.id (t'.rib f) + dn = sessCount s.id (t.rib f) + up ∧
+      t'.ctr (s.id, f) + dn = t.ctr (s.id, f) + up ∧ (act ≠ some (s.id, f) → up = 0 ∧ dn = 0) := by
+  rcases h with ⟨up, dn, h1, h2, h3, h4, h5⟩ | ⟨h, _, _⟩
+  · refine ⟨up, dn, h1, h2, h3, h4, fun ha => h5 ?_⟩
+    cases htg : tg
+    · rfl
+    · exact absurd (hta htg) ha
+  · rw [hd] at h; exact absurd h (by simp)
 
-theorem sinv_remove (hp : c.PlainLimits) (hs : SInv c t st k) {src : Src} {fam : Fam} {net : Net}
-    {rpid : Nat} (hsrc : src.WF c) (hcf : CtrFacts t (.remove src fam net rpid) t' r) {prev' : List FamObs}
-    (hprev : ∀ f, famDests prev' f = (famObs t' f).dests) :
-    SInv c t' { live := activate c st src fam, dead := st.dead, prev := prev' } (k + 1) := by
-  obtain ⟨hacc, d, h1, h2, h3⟩ := hcf
-  refine sinv_A hs (if src.lim.isSome then some (src.id, fam) else none) ?_ ?_ hprev ?_ ?_
-  · intro i f
-    rw [isLive_activate hp.oneSession (fun i f h => (hs.live i f h).2) (fun _ => hsrc) fam i f, act_of_src]
-  · intro i f h
-    cases hl : src.lim.isSome
-    · rw [hl] at h; simp at h
-    · rw [hl] at h
-      simp only [if_true, Option.some.injEq, Prod.mk.injEq] at h
-      exact ⟨src, hsrc, hl, h.1.symm⟩
-  · intro a f
-    refine ⟨?_, hacc a f⟩
-    by_cases hkey : (a, f) = (src.addr, fam)
-    · cases hkey; omega
-    · rw [h2 a f hkey]; omega
-  · intro s hw hl f
-    by_cases htg : src.id = s.id ∧ fam = f
-    · obtain ⟨hid, rfl⟩ := htg
-      have : src = s := src_eq_of_id hsrc hw hid
-      subst this
-      refine ⟨0, d.toNat, by omega, by omega, by omega, ?_, fun h => absurd (by rw [hl]; rfl) h⟩
-      rw [hl] at h3
-      cases d
-      · simp only [Bool.false_and, Bool.false_eq_true, if_false] at h3
-        rw [ctr_of_ctrs_eq h3]; rfl
-      · simp only [Bool.and_self, if_true] at h3
-        have hc := (hs.ctr src hw hl fam).1
-        simp only [Bool.toNat_true] at h1 ⊢
-        rw [ctr_aset_self h3, atomicDec_pos (by omega)]
-        omega
-    · obtain ⟨ha, hkk⟩ := key_ne_of_not_tg hp hw hl hsrc htg
-      refine ⟨0, 0, by omega, by omega, by rw [h2 _ _ ha], ?_, fun _ => ⟨rfl, rfl⟩⟩
-      split at h3
-      · rw [ctr_aset_ne h3 hkk]
-      · rw [ctr_of_ctrs_eq h3]
+/-- what a step that ends the sessions of (a, f0) needs from `count_step` -/
+theorem kill_of_moved {s : Src} {f f0 : Fam} {a : Nat} {tg dist : Bool} (hw : s.WF c)
+    (h : Moved t t' s f tg dist) (htg : tg = false) (hd : dist = true → f = f0 ∧ s.addr = a) :
+    sessCount s.id (t'.rib f) ≤ sessCount s.id (t.rib f) ∧ t'.ctr (s.id, f) = t.ctr (s.id, f) ∧
+      (¬ (f = f0 ∧ addrOf c s.id = some a) → sessCount s.id (t'.rib f) = sessCount s.id (t.rib f)) := by
+  rcases h with ⟨up, dn, h1, h2, h3, h4, h5⟩ | ⟨h, h1, h2⟩
+  · obtain ⟨rfl, rfl⟩ := h5 htg
+    exact ⟨by omega, by omega, fun _ => by omega⟩
+  · refine ⟨h1, h2, fun hn => absurd ?_ hn⟩
+    obtain ⟨hf, ha⟩ := hd h
+    exact ⟨hf, by rw [addrOf_wf hw, ha]⟩
 
-theorem sinv_purge (hp : c.PlainLimits) (hk : k < HALF) (hs : SInv c t st k) {a : Nat} {f0 : Fam} {ctr : Option Nat}
-    (hpc : ∀ s ∈ c.srcs, s.lim.isSome = true → s.addr = a → ctr = none ∨ ctr = some s.id)
-    (hcp : ∀ i s, c.srcs[i]? = some s → s.lim.isSome = true → ctr = some i → s.addr = a)
-    (hacc : ∀ a f, accCount a (t'.rib f) ≤ accCount a (t.rib f) + 1)
-    (hspec : PurgeSpec t t' a f0 ctr) {prev' : List FamObs}
-    (hprev : ∀ f, famDests prev' f = (famObs t' f).dests) :
-    SInv c t' { live := (match ctr.bind (c.srcs[·]?) with
-                  | some s => activate c st s f0
-                  | none => deactivate c st.live a f0),
-                dead := (match ctr.bind (c.srcs[·]?) with
-                  | some _ => st.dead
-                  | none => ((st.live.filter fun l => l.fam = f0 && addrOf c l.src == some a).map
-                      fun l => (l.src, l.fam)) ++ st.dead),
-                prev := prev' } (k + 1) := by
-  obtain ⟨gone, hR, hoth, hctrs⟩ := hspec
-  have hle : ∀ a' f', recvCount a' (t'.rib f') ≤ recvCount a' (t.rib f') := by
-    intro a' f'
-    by_cases hkey : (a', f') = (a, f0)
-    · cases hkey; omega
-    · rw [hoth a' f' hkey]; omega
-  cases hb : ctr.bind (c.srcs[·]?) with
-  | none =>
-    -- no counter: the judgement of the peer's sessions in the family ends
-    simp only []
-    refine sinv_K hs a f0 hprev hacc hle hoth ?_
-    intro s hw f
-    cases hc : ctr with
-    | none => rw [hc] at hctrs; exact ctr_of_ctrs_eq hctrs _
-    | some i =>
-      rw [hc] at hctrs hb
-      have hne : (s.id, f) ≠ (i, f0) := by
-        intro e
-        obtain ⟨e1, _⟩ := Prod.mk.inj e
-        subst e1
-        have : c.srcs[s.id]? = none := hb
-        rw [show c.srcs[s.id]? = some s from hw] at this
-        cases this
-      exact ctr_aset_ne (show t'.ctrs = aset (i, f0) _ t.ctrs from hctrs) hne
-  | some s' =>
-    simp only []
-    obtain ⟨j, hj⟩ : ∃ j, ctr = some j := by
-      cases hc : ctr with
-      | none => rw [hc] at hb; simp at hb
-      | some j => exact ⟨j, rfl⟩
-    have hjs : c.srcs[j]? = some s' := by rw [hj] at hb; exact hb
-    -- a limited source whose counter was handed over is a well-formed source of the purged peer
-    have hsrc : s'.lim.isSome = true → s'.WF c ∧ s'.addr = a ∧ j = s'.id := by
-      intro hl
-      have ha := hcp j s' hjs hl hj
-      rcases hpc s' (List.mem_of_getElem? hjs) hl ha with h | h
-      · rw [hj] at h; cases h
-      · rw [hj, Option.some.injEq] at h
-        subst h
-        exact ⟨hjs, ha, rfl⟩
-    refine sinv_A hs (if s'.lim.isSome then some (s'.id, f0) else none) ?_ ?_ hprev
-      (fun a' f' => ⟨by have := hle a' f'; omega, hacc a' f'⟩) ?_
-    · intro i f
-      rw [isLive_activate hp.oneSession (fun i f h => (hs.live i f h).2) (fun hl => (hsrc hl).1) f0 i f,
-        act_of_src]
-    · intro i f h
-      cases hl : s'.lim.isSome
-      · rw [hl] at h; simp at h
-      · rw [hl] at h
-        simp only [if_true, Option.some.injEq, Prod.mk.injEq] at h
-        exact ⟨s', (hsrc hl).1, hl, h.1.symm⟩
-    · intro s hw hl f
-      by_cases htg : s.addr = a ∧ f = f0
-      · obtain ⟨rfl, rfl⟩ := htg
-        have hc : ctr = some s.id := by
-          rcases hpc s (src_mem_of_wf hw) hl rfl with h | h
-          · rw [hj] at h; cases h
-          · exact h
-        have hss : s' = s := by
-          rw [hc] at hb
-          have : c.srcs[s.id]? = some s' := hb
-          rw [show c.srcs[s.id]? = some s from hw] at this
-          exact (Option.some.inj this).symm
-        subst hss
-        have hcc := hs.ctr s' hw hl f
-        refine ⟨0, gone, by omega, by omega, by omega, ?_, fun h => absurd (by rw [hl]; rfl) h⟩
-        rw [hc] at hctrs
-        rw [ctr_aset_self (show t'.ctrs = aset (s'.id, f) _ t.ctrs from hctrs),
-          atomicDecN_small (by omega) (by omega)]
-        omega
-      · have hkey : (s.addr, f) ≠ (a, f0) := by
-          intro e
-          obtain ⟨e1, e2⟩ := Prod.mk.inj e
-          exact htg ⟨e1, e2⟩
-        refine ⟨0, 0, by omega, by omega, by rw [hoth _ _ hkey], ?_, fun _ => ⟨rfl, rfl⟩⟩
-        rw [hj] at hctrs
-        have hne : (s.id, f) ≠ (j, f0) := by
-          intro e
-          obtain ⟨e1, e2⟩ := Prod.mk.inj e
-          subst e1
-          exact htg ⟨hcp s.id s hw hl hj, e2⟩
-        rw [ctr_aset_ne (show t'.ctrs = aset (j, f0) _ t.ctrs from hctrs) hne]
-
-theorem sinv_step (hp : c.PlainLimits) {op : Op} (hop : op ∈ c.ops) (hwf : op.WF c g) (hk : k < HALF)
-    (hcf : CtrFacts t op t' r) (hs : SInv c t st k) :
+theorem sinv_step (hone : c.OneSession) {op : Op} (hpo : op.PurgeCtrOk c) (hwf : op.WF c g) (hk : k < HALF)
+    (hinv : Inv c g t) (hcf : CtrFacts t op t' r) (hs : SInv c t st k) :
     SInv c t' { live := liveStep c st op, dead := deadStep c st op, prev := (stepObs c (t', r)).fams } (k + 1) := by
   have hprev : ∀ f, famDests (stepObs c (t', r)).fams f = (famObs t' f).dests := fun f => famDests_allFams t' f
-  have hnone : t'.ctrs = t.ctrs → (∀ a f, recvCount a (t'.rib f) = recvCount a (t.rib f)) →
+  have hbound : ∀ a f, recvCount a (t'.rib f) ≤ recvCount a (t.rib f) + 1 ∧
+      accCount a (t'.rib f) ≤ accCount a (t.rib f) + 1 := fun a f => ⟨hcf.recvLe a f, hcf.accLe a f⟩
+  have hmv : ∀ s : Src, s.WF c → s.lim.isSome = true → ∀ f, Moved t t' s f (op.targets s f) (op.disturbs s f) := by
+    intro s hw hl f
+    have h0 := hs.ctr s hw hl f
+    exact count_step hpo hwf hinv hcf hw hl f h0.1 (by omega)
+  -- another session of a limited peer does not exist
+  have hsame : ∀ (s src : Src), s.WF c → s.lim.isSome = true → src.WF c → src.addr = s.addr → src.id = s.id := by
+    intro s src hw hl hsw ha
+    rw [hone s (src_mem_of_wf hw) src (src_mem_of_wf hsw) ha.symm hl]
+  have hnone : (∀ s f, op.targets s f = false) → (∀ s f, op.disturbs s f = false) →
       SInv c t' { live := st.live, dead := st.dead, prev := (stepObs c (t', r)).fams } (k + 1) := by
-    intro hc hr
-    refine sinv_A hs none (fun i f => ⟨Or.inl, ?_⟩) (fun i f h => absurd h (by simp)) hprev ?_ ?_
+    intro h1 h2
+    refine sinv_A hs none (fun i f => ⟨Or.inl, ?_⟩) (fun i f h => absurd h (by simp)) hprev hbound ?_
     · rintro (h | ⟨h, _⟩)
       · exact h
       · exact absurd h (by simp)
-    · intro a f
-      have := hcf.accLe a f
-      rw [hr a f]; omega
     · intro s hw hl f
-      exact ⟨0, 0, by omega, by omega, by rw [hr], by rw [ctr_of_ctrs_eq hc], fun _ => ⟨rfl, rfl⟩⟩
-  have hkill : ∀ a f0, (∀ s : Src, s.WF c → ∀ f, t'.ctr (s.id, f) = t.ctr (s.id, f)) →
-      (∀ a' f', recvCount a' (t'.rib f') ≤ recvCount a' (t.rib f')) →
-      (∀ a' f', (a', f') ≠ (a, f0) → recvCount a' (t'.rib f') = recvCount a' (t.rib f')) →
+      exact cnt_of_moved (hmv s hw hl f) (h2 s f) (fun h => by rw [h1 s f] at h; cases h)
+  have hkill : ∀ a f0, (∀ s f, op.targets s f = false) →
+      (∀ (s : Src) f, op.disturbs s f = true → f = f0 ∧ s.addr = a) →
       SInv c t' { live := deactivate c st.live a f0,
                   dead := ((st.live.filter fun l => l.fam = f0 && addrOf c l.src == some a).map
                     fun l => (l.src, l.fam)) ++ st.dead,
-                  prev := (stepObs c (t', r)).fams } (k + 1) :=
-    fun a f0 hc hle hsame => sinv_K hs a f0 hprev hcf.accLe hle hsame hc
+                  prev := (stepObs c (t', r)).fams } (k + 1) := by
+    intro a f0 h1 h2
+    exact sinv_K hs a f0 hprev hbound (fun s hw hl f => kill_of_moved hw (hmv s hw hl f) (h1 s f) (h2 s f))
+  have hact : ∀ (src : Src) (fam : Fam), (src.lim.isSome = true → src.WF c) →
+      (∀ (s : Src), s.WF c → s.lim.isSome = true → ∀ f, op.disturbs s f = false) →
+      (∀ (s : Src), s.WF c → s.lim.isSome = true → ∀ f, op.targets s f = true →
+        src.lim.isSome = true ∧ src.id = s.id ∧ fam = f) →
+      SInv c t' { live := activate c st src fam, dead := st.dead, prev := (stepObs c (t', r)).fams } (k + 1) := by
+    intro src fam hsw h1 h2
+    refine sinv_A hs (if src.lim.isSome then some (src.id, fam) else none) ?_ ?_ hprev hbound ?_
+    · intro i f
+      rw [isLive_activate hone (fun i f h => (hs.live i f h).2) hsw fam i f, act_of_src]
+    · intro i f h
+      cases hl : src.lim.isSome
+      · rw [hl] at h; simp at h
+      · rw [hl] at h
+        simp only [if_true, Option.some.injEq, Prod.mk.injEq] at h
+        exact ⟨src, hsw hl, hl, h.1.symm⟩
+    · intro s hw hl f
+      refine cnt_of_moved (hmv s hw hl f) (h1 s hw hl f) ?_
+      intro htg
+      obtain ⟨e1, e2, e3⟩ := h2 s hw hl f htg
+      rw [e1, e2, e3]; rfl
+  have hpurge : ∀ (a : Nat) (f0 : Fam) (ctr : Option Nat), PurgeArgOk c a ctr →
+      (∀ (s : Src) f, op.targets s f = (f0 == f && a == s.addr && ctr.isSome)) →
+      (∀ (s : Src) f, op.disturbs s f = (f0 == f && a == s.addr && ctr.isNone)) →
+      SInv c t' { live := (match ctr.bind (c.srcs[·]?) with
+                    | some s => activate c st s f0
+                    | none => deactivate c st.live a f0),
+                  dead := (match ctr.bind (c.srcs[·]?) with
+                    | some _ => st.dead
+                    | none => ((st.live.filter fun l => l.fam = f0 && addrOf c l.src == some a).map
+                        fun l => (l.src, l.fam)) ++ st.dead),
+                  prev := (stepObs c (t', r)).fams } (k + 1) := by
+    intro a f0 ctr hpa ht hd
+    cases hc : ctr with
+    | none =>
+      refine hkill a f0 (fun s f => by rw [ht, hc]; simp) (fun s f h => ?_)
+      rw [hd, hc] at h
+      simp only [Option.isNone_none, Bool.and_true, Bool.and_eq_true, beq_iff_eq] at h
+      exact ⟨h.1.symm, h.2.symm⟩
+    | some i =>
+      obtain ⟨s0, hs0, ha0, hall⟩ := hpa i hc
+      have hi0 : s0.id = i := hall s0 (List.mem_of_getElem? hs0) ha0
+      have hw0 : s0.WF c := by unfold Src.WF; rw [hi0]; exact hs0
+      have hb : (some i : Option Nat).bind (c.srcs[·]?) = some s0 := hs0
+      rw [hb]
+      refine hact s0 f0 (fun _ => hw0) (fun s _ _ f => by rw [hd, hc]; simp) ?_
+      intro s hw hl f htg
+      rw [ht, hc] at htg
+      simp only [Option.isSome_some, Bool.and_true, Bool.and_eq_true, beq_iff_eq] at htg
+      have hsid : s.id = i := hall s (src_mem_of_wf hw) htg.2.symm
+      have : s0 = s := src_eq_of_id hw0 hw (by rw [hi0, hsid])
+      subst this
+      exact ⟨hl, rfl, htg.1⟩
   cases op with
-  | insert src fam net rpid nh attr filtered nhInv => exact sinv_insert hp hk hs hwf.1 hcf hprev
-  | remove src fam net rpid => exact sinv_remove hp hs hwf.1 hcf hprev
+  | insert src fam net rpid nh attr filtered nhInv =>
+    refine hact src fam (fun _ => hwf.1) ?_ ?_
+    · intro s hw hl f
+      cases hd : (Op.insert src fam net rpid nh attr filtered nhInv).disturbs s f
+      · rfl
+      · simp only [Op.disturbs, Bool.and_eq_true, beq_iff_eq, bne_iff_ne] at hd
+        exact absurd (hsame s src hw hl hwf.1 hd.1.2) hd.2
+    · intro s hw hl f htg
+      simp only [Op.targets, Bool.and_eq_true, beq_iff_eq] at htg
+      have : src = s := src_eq_of_id hwf.1 hw htg.2
+      subst this
+      exact ⟨hl, rfl, htg.1⟩
+  | remove src fam net rpid =>
+    refine hact src fam (fun _ => hwf.1) ?_ ?_
+    · intro s hw hl f
+      cases hd : (Op.remove src fam net rpid).disturbs s f
+      · rfl
+      · simp only [Op.disturbs, Bool.and_eq_true, beq_iff_eq, bne_iff_ne] at hd
+        exact absurd (hsame s src hw hl hwf.1 hd.1.2) hd.2
+    · intro s hw hl f htg
+      simp only [Op.targets, Bool.and_eq_true, beq_iff_eq] at htg
+      have : src = s := src_eq_of_id hwf.1 hw htg.2
+      subst this
+      exact ⟨hl, rfl, htg.1⟩
   | drop a f0 =>
-    obtain ⟨gone, hR, hoth, hctrs⟩ := hcf.spec
-    refine hkill a f0 (fun s _ f => ctr_of_ctrs_eq hctrs _) ?_ hoth
-    intro a' f'
-    by_cases hkey : (a', f') = (a, f0)
-    · cases hkey; omega
-    · rw [hoth a' f' hkey]; omega
-  | dropStale a f0 ctr =>
-    exact sinv_purge hp hk hs (fun s hm hl => hp.purgeCtr _ hop s hm hl)
-      (fun i s hi hl => hp.ctrPeer _ hop i s hi hl) hcf.accLe hcf.spec hprev
-  | dropLlgr a f0 ctr =>
-    exact sinv_purge hp hk hs (fun s hm hl => hp.purgeCtr _ hop s hm hl)
-      (fun i s hi hl => hp.ctrPeer _ hop i s hi hl) hcf.accLe hcf.spec hprev
-  | dropNoLlgr a f0 ctr =>
-    exact sinv_purge hp hk hs (fun s hm hl => hp.purgeCtr _ hop s hm hl)
-      (fun i s hi hl => hp.ctrPeer _ hop i s hi hl) hcf.accLe hcf.spec hprev
-  | restale a f0 =>
-    exact hkill a f0 (fun s _ f => ctr_of_ctrs_eq hcf.spec.2 _) (fun a' f' => by rw [hcf.spec.1 a' f']; omega)
-      (fun a' f' _ => hcf.spec.1 a' f')
-  | restaleLlgr a f0 =>
-    exact hkill a f0 (fun s _ f => ctr_of_ctrs_eq hcf.spec.2 _) (fun a' f' => by rw [hcf.spec.1 a' f']; omega)
-      (fun a' f' _ => hcf.spec.1 a' f')
-  | nhValidity nh reachable => exact hnone hcf.spec.2 hcf.spec.1
-  | startDeferral fam => exact hnone hcf.spec.2 hcf.spec.1
-  | endDeferral fam => exact hnone hcf.spec.2 hcf.spec.1
+    refine hkill a f0 (fun _ _ => rfl) (fun s f h => ?_)
+    simp only [Op.disturbs, Bool.and_eq_true, beq_iff_eq] at h
+    exact ⟨h.1.symm, h.2.symm⟩
+  | dropStale a f0 ctr => exact hpurge a f0 ctr hpo (fun _ _ => rfl) (fun _ _ => rfl)
+  | dropLlgr a f0 ctr => exact hpurge a f0 ctr hpo (fun _ _ => rfl) (fun _ _ => rfl)
+  | dropNoLlgr a f0 ctr => exact hpurge a f0 ctr hpo (fun _ _ => rfl) (fun _ _ => rfl)
+  | restale a f0 => exact hkill a f0 (fun _ _ => rfl) (fun s f h => by simp [Op.disturbs] at h)
+  | restaleLlgr a f0 => exact hkill a f0 (fun _ _ => rfl) (fun s f h => by simp [Op.disturbs] at h)
+  | nhValidity nh reachable => exact hnone (fun _ _ => rfl) (fun _ _ => rfl)
+  | startDeferral fam => exact hnone (fun _ _ => rfl) (fun _ _ => rfl)
+  | endDeferral fam => exact hnone (fun _ _ => rfl) (fun _ _ => rfl)
 
 end Step
 
@@ -564,7 +683,7 @@ theorem res_obs_limit {fl : Flags} {r : Res} (h : r.obs fl = .limit) : r = .limi
   | _ => simp [Res.obs] at h
 
 theorem checkStep_ok {c : Case} {g : Nat → Fam} {t t' : Table} {r : Res} {st : St} {k : Nat} {op : Op}
-    {live' : List Live} {dead' : List (Nat × Fam)} {prev' : List FamObs}
+    {live' : List Live} {dead' : List (Nat × Fam)} {prev' : List FamObs} (hone : c.OneSession)
     (hinv : Inv c g t) (hinv' : Inv c g t') (hk : k + 1 < HALF)
     (hs : SInv c t st k) (hs' : SInv c t' { live := live', dead := dead', prev := prev' } (k + 1))
     (hwf : op.WF c g) (hcf : CtrFacts t op t' r) :
@@ -587,12 +706,20 @@ theorem checkStep_ok {c : Case} {g : Nat → Fam} {t t' : Table} {r : Res} {st :
           obtain ⟨⟨h1, h2⟩, h3⟩ := h
           rw [hs.prev fam, obs_known t fam (hinv.rib fam)] at h1
           have hr : r ≠ .limit := fun e => h2 (by rw [e]; rfl)
-          obtain ⟨e1, _, _, e4⟩ := hcf.spec.2 hr
-          rw [h1] at e1 e4
+          have hl : src.lim.isSome = true := by rw [hlim]; rfl
+          have hhas : ((t.entries fam net).any fun e => e.src.id == src.id) = false := by
+            rw [List.any_eq_false] at h1 ⊢
+            intro x hx hq
+            apply h1 x hx
+            have hxs : x.src = src := src_eq_of_id (entries_wf hinv hx) hwf.1 (by simpa using hq)
+            simp [sameAddr, hxs]
+          obtain ⟨e1, _, e4, _⟩ := hcf.spec.2 hr
+          rw [hhas] at e1
           have hn := obs_unf_le t' fam (hinv'.rib fam) src.addr
           rw [show famDests (stepObs c (t', r)).fams fam = (famObs t' fam).dests from famDests_allFams t' fam] at h3
-          have hc := (hs.ctr src hwf.1 (by rw [hlim]; rfl) fam).1
-          have := e4 rfl max hlim
+          have hc := (hs.ctr src hwf.1 hl fam).1
+          have := e4 hhas max hlim
+          have hsr := sess_eq_recv hone (hinv'.rib fam) hwf.1 hl
           simp only [Bool.not_false, Bool.toNat_true] at e1
           omega
       | _ => rfl
@@ -601,9 +728,10 @@ theorem checkStep_ok {c : Case} {g : Nat → Fam} {t t' : Table} {r : Res} {st :
       rw [hid] at hnd ⊢
       rw [addrOf_wf hw]
       simp only []
-      rw [ctrOf_stepObs hinv' r s.id l.fam, show (stepObs c (t', r)).fams = allFams.map (famObs t') from rfl, fams_any, famDests_allFams, obs_recv t' l.fam (hinv'.rib l.fam)]
+      rw [ctrOf_stepObs hinv' r s.id l.fam, show (stepObs c (t', r)).fams = allFams.map (famObs t') from rfl,
+        fams_any, famDests_allFams, obs_sess t' l.fam (hinv'.rib l.fam)]
       have heq := hs'.eq s hw hlim l.fam hnd
-      have hb := (hs'.bound s.addr l.fam).1
+      have hb := (hs'.ctr s hw hlim l.fam).2
       rw [if_neg (by omega), if_neg]
       rw [heq]; simp
   · intro fo hfo
@@ -626,141 +754,102 @@ theorem checkStep_ok {c : Case} {g : Nat → Fam} {t t' : Table} {r : Res} {st :
 theorem sinv_empty (c : Case) : SInv c {} {} 0 := by
   have hr : ∀ a f, recvCount a (({} : Table).rib f) = 0 := by intro a f; cases f <;> rfl
   have ha : ∀ a f, accCount a (({} : Table).rib f) = 0 := by intro a f; cases f <;> rfl
+  have hsc : ∀ i f, sessCount i (({} : Table).rib f) = 0 := by intro i f; cases f <;> rfl
   refine ⟨?_, ?_, ?_, ?_, ?_, ?_⟩
   · intro f; cases f <;> rfl
   · intro a f; rw [hr, ha]; exact ⟨Nat.le_refl _, Nat.le_refl _⟩
-  · intro s _ _ f; rw [hr]; exact ⟨Nat.zero_le _, Nat.le_refl _⟩
-  · intro s _ _ f _; rw [hr]; rfl
-  · intro s _ _ f _ _; exact hr _ _
+  · intro s _ _ f; rw [hsc]; exact ⟨Nat.zero_le _, Nat.le_refl _⟩
+  · intro s _ _ f _; rw [hsc]; rfl
+  · intro s _ _ f _ _; exact hsc _ _
   · rintro i f ⟨l, hl, _⟩; simp at hl
 
-theorem checkSteps_ok (hS : AllSound) {c : Case} {g : Nat → Fam} (p : Profile) (hp : c.PlainLimits) :
-    ∀ (ops : List Op) (t : Table) (st : St) (k i : Nat), (∀ op ∈ ops, op.WF c g) → (∀ op ∈ ops, op ∈ c.ops) →
+theorem checkSteps_ok (hS : AllSound) {c : Case} {g : Nat → Fam} (p : Profile) (hone : c.OneSession) :
+    ∀ (ops : List Op) (t : Table) (st : St) (k i : Nat), (∀ op ∈ ops, op.WF c g) → (∀ op ∈ ops, op.PurgeCtrOk c) →
       k + ops.length < HALF → Inv c g t → SInv c t st k →
       checkSteps c i st ops ((runFrom p t ops).1.map (stepObs c)) = .ok := by
   intro ops
   induction ops with
   | nil => intro t st k i _ _ _ _ _; rfl
   | cons op ops ih =>
-    intro t st k i hwf hmem hk hinv hs
+    intro t st k i hwf hpo hk hinv hs
     obtain ⟨t', r, hstep, hrun, hinv', _, _⟩ := run_step hS p ops (hwf op List.mem_cons_self) hinv
     have hcf := ctrFacts_step p hinv hinv' op hstep
     have hlen : k + (ops.length + 1) < HALF := by simpa using hk
-    have hs' := sinv_step hp (hmem op List.mem_cons_self) (hwf op List.mem_cons_self) (by omega) hcf hs
-    have hchk := checkStep_ok hinv hinv' (by omega) hs hs' (hwf op List.mem_cons_self) hcf
+    have hs' := sinv_step hone (hpo op List.mem_cons_self) (hwf op List.mem_cons_self) (by omega) hinv hcf hs
+    have hchk := checkStep_ok hone hinv hinv' (by omega) hs hs' (hwf op List.mem_cons_self) hcf
     rw [hrun]
     simp only [List.map_cons]
     rw [checkSteps, hchk]
     exact ih t' _ (k + 1) (i + 1) (fun o ho => hwf o (List.mem_cons_of_mem _ ho))
-      (fun o ho => hmem o (List.mem_cons_of_mem _ ho)) (by omega) hinv' hs'
+      (fun o ho => hpo o (List.mem_cons_of_mem _ ho)) (by omega) hinv' hs'
 
-/-! ## The states of a run -/
+/-- **C15, partial**: with one session per limited peer the reference checker accepts every model run. -/
+theorem check_run_ok_partial (hS : AllSound) {c : Case} {g : Nat → Fam} (p : Profile) (h : c.WFWith g)
+    (hpc : c.PurgeCtrOk) (hsh : c.Short) (hone : c.OneSession) : SpecC15.check c (observe p c) = .ok := by
+  have hsteps : (observe p c).steps = (runFrom p {} c.ops).1.map (stepObs c) := rfl
+  have hpan : (observe p c).panicked = (runFrom p {} c.ops).2 := rfl
+  unfold SpecC15.check
+  rw [hsteps, checkSteps_ok hS p hone c.ops {} {} 0 0 h hpc (by simpa using (show c.ops.length < HALF from hsh)) (inv_empty c g) (sinv_empty c)]
+  simp only []
+  rw [hpan, runFrom_no_panic hS p c.ops h {} (inv_empty c g)]
+  rfl
 
-/-- every ended session was ended by one of the operations executed so far -/
-def DeadProv (c : Case) (dead : List (Nat × Fam)) (done : List Op) : Prop :=
-  ∀ i f, (i, f) ∈ dead → ∃ op ∈ done, ∃ a, op.endsSessions c = some (a, f) ∧ addrOf c i = some a
+/-! ## The states of a run (any number of sessions per peer) -/
 
-theorem deadProv_step {c : Case} {st : St} {done : List Op} (h : DeadProv c st.dead done) (op : Op) :
-    DeadProv c (deadStep c st op) (done ++ [op]) := by
-  have hold : DeadProv c st.dead (done ++ [op]) := by
-    intro i f hm
-    obtain ⟨o, ho, a, h1, h2⟩ := h i f hm
-    exact ⟨o, List.mem_append_left _ ho, a, h1, h2⟩
-  have hkill : ∀ a f0, op.endsSessions c = some (a, f0) →
-      DeadProv c (((st.live.filter fun l => l.fam = f0 && addrOf c l.src == some a).map
-        fun l => (l.src, l.fam)) ++ st.dead) (done ++ [op]) := by
-    intro a f0 hop i f hm
-    rcases (mem_dead_kill c st a f0 i f).mp hm with ⟨_, hf, ha⟩ | hm
-    · exact ⟨op, List.mem_append_right _ List.mem_cons_self, a, by rw [hop, hf], ha⟩
-    · exact hold i f hm
-  have hpurge : ∀ (a : Nat) (f0 : Fam) (ctr : Option Nat), (ctr.bind (c.srcs[·]?) = none → op.endsSessions c = some (a, f0)) →
-      DeadProv c (match ctr.bind (c.srcs[·]?) with
-        | some _ => st.dead
-        | none => ((st.live.filter fun l => l.fam = f0 && addrOf c l.src == some a).map
-            fun l => (l.src, l.fam)) ++ st.dead) (done ++ [op]) := by
-    intro a f0 ctr hop
-    cases hb : ctr.bind (c.srcs[·]?) with
-    | none => exact hkill a f0 (hop hb)
-    | some _ => exact hold
-  cases op with
-  | drop a f0 => exact hkill a f0 rfl
-  | restale a f0 => exact hkill a f0 rfl
-  | restaleLlgr a f0 => exact hkill a f0 rfl
-  | dropStale a f0 ctr => exact hpurge a f0 ctr (fun hb => by simp [Op.endsSessions, hb])
-  | dropLlgr a f0 ctr => exact hpurge a f0 ctr (fun hb => by simp [Op.endsSessions, hb])
-  | dropNoLlgr a f0 ctr => exact hpurge a f0 ctr (fun hb => by simp [Op.endsSessions, hb])
-  | _ => exact hold
-
-/-- what holds at step `i` of a run: the step equation, the invariants before and after, and the
-    provenance of the ended sessions -/
-theorem run_at (hS : AllSound) {c : Case} {g : Nat → Fam} (p : Profile) (hp : c.PlainLimits) :
-    ∀ (ops : List Op) (t : Table) (st : St) (k : Nat) (done : List Op),
-      (∀ op ∈ ops, op.WF c g) → (∀ op ∈ ops, op ∈ c.ops) → k + ops.length < HALF → Inv c g t → SInv c t st k →
-      DeadProv c st.dead done →
+/-- what holds at step `i` of a run: the step equation, the invariant before and after, and the
+    counters before and after -/
+theorem run_at (hS : AllSound) {c : Case} {g : Nat → Fam} (p : Profile) :
+    ∀ (ops : List Op) (t : Table) (k : Nat) (done : List Op),
+      (∀ op ∈ ops, op.WF c g) → (∀ op ∈ ops, op.PurgeCtrOk c) → k + ops.length < HALF → Inv c g t →
+      GInv c t k done →
       ∀ (i : Nat) (tA tB : Table) (op : Op) (r : Res),
         (t :: (runFrom p t ops).1.map (·.1))[i]? = some tA → ops[i]? = some op →
         (runFrom p t ops).1[i]? = some (tB, r) →
         Inv c g tA ∧ Inv c g tB ∧ tA.step p op = .ok (tB, r) ∧
-        ∃ stA, SInv c tA stA (k + i) ∧ DeadProv c stA.dead (done ++ ops.take i) ∧
-          SInv c tB { live := liveStep c stA op, dead := deadStep c stA op, prev := (stepObs c (tB, r)).fams }
-            (k + i + 1) ∧
-          DeadProv c (deadStep c stA op) (done ++ ops.take (i + 1)) := by
+        GInv c tA (k + i) (done ++ ops.take i) ∧ GInv c tB (k + i + 1) (done ++ ops.take (i + 1)) := by
   intro ops
   induction ops with
-  | nil => intro t st k done _ _ _ _ _ _ i tA tB op r _ h2; simp at h2
+  | nil => intro t k done _ _ _ _ _ i tA tB op r _ h2; simp at h2
   | cons o ops ih =>
-    intro t st k done hwf hmem hk hinv hs hd i tA tB op r h1 h2 h3
+    intro t k done hwf hpo hk hinv hg i tA tB op r h1 h2 h3
     obtain ⟨t1, r1, hstep, hrun, hinv1, _, _⟩ := run_step hS p ops (hwf o List.mem_cons_self) hinv
     have hcf := ctrFacts_step p hinv hinv1 o hstep
     have hlen : k + (ops.length + 1) < HALF := by simpa using hk
-    have hs1 := sinv_step hp (hmem o List.mem_cons_self) (hwf o List.mem_cons_self) (by omega) hcf hs
-    have hd1 := deadProv_step hd o
+    have hg1 := ginv_step (hpo o List.mem_cons_self) (hwf o List.mem_cons_self) (by omega) hinv hcf hg
     rw [hrun] at h1 h3
     cases i with
     | zero =>
       simp only [List.getElem?_cons_zero, Option.some.injEq] at h1 h2 h3
       subst h1; subst h2
       cases h3
-      refine ⟨hinv, hinv1, hstep, st, hs, by simpa using hd, hs1, ?_⟩
-      simpa using hd1
+      refine ⟨hinv, hinv1, hstep, by simpa using hg, ?_⟩
+      simpa using hg1
     | succ i =>
       simp only [List.getElem?_cons_succ, List.map_cons] at h1 h2 h3
-      have := ih t1 _ (k + 1) (done ++ [o]) (fun o' ho' => hwf o' (List.mem_cons_of_mem _ ho'))
-        (fun o' ho' => hmem o' (List.mem_cons_of_mem _ ho')) (by omega) hinv1 hs1 hd1 i tA tB op r h1 h2 h3
-      obtain ⟨e1, e2, e3, stA, e4, e5, e6, e7⟩ := this
-      refine ⟨e1, e2, e3, stA, ?_, ?_, ?_, ?_⟩
-      · rw [show k + (i + 1) = k + 1 + i by omega]; exact e4
-      · rw [List.take_succ_cons, List.append_cons]; exact e5
-      · rw [show k + (i + 1) + 1 = k + 1 + i + 1 by omega]; exact e6
-      · rw [List.take_succ_cons, List.append_cons]; exact e7
+      obtain ⟨e1, e2, e3, e4, e5⟩ := ih t1 (k + 1) (done ++ [o]) (fun o' ho' => hwf o' (List.mem_cons_of_mem _ ho'))
+        (fun o' ho' => hpo o' (List.mem_cons_of_mem _ ho')) (by omega) hinv1 hg1 i tA tB op r h1 h2 h3
+      refine ⟨e1, e2, e3, ?_, ?_⟩
+      · rw [show k + (i + 1) = k + 1 + i by omega, List.take_succ_cons, List.append_cons]; exact e4
+      · rw [show k + (i + 1) + 1 = k + 1 + i + 1 by omega, List.take_succ_cons, List.append_cons]; exact e5
 
-/-- **C15, partial**: outside the two open findings the reference checker accepts every model run. -/
-theorem check_run_ok_partial (hS : AllSound) {c : Case} {g : Nat → Fam} (p : Profile) (h : c.WFWith g)
-    (hp : c.PlainLimits) : SpecC15.check c (observe p c) = .ok := by
-  have hsteps : (observe p c).steps = (runFrom p {} c.ops).1.map (stepObs c) := rfl
-  have hpan : (observe p c).panicked = (runFrom p {} c.ops).2 := rfl
-  unfold SpecC15.check
-  rw [hsteps, checkSteps_ok hS p hp c.ops {} {} 0 0 h (fun _ ho => ho) (by simpa using hp.short)
-    (inv_empty c g) (sinv_empty c)]
-  simp only []
-  rw [hpan, runFrom_no_panic hS p c.ops h {} (inv_empty c g)]
-  rfl
-
-/-! ## The full-strength statement is false for the model (open finding: inherited stale paths) -/
+/-! ## The full-strength statement is false for the model (residual of the finding: the stale paths a
+    restarted session inherits are not counted against its limit) -/
 
 def C15_full : Prop := ∀ (p : Profile) (c : Case), c.WF → SpecC15.check c (observe p c) = .ok
 
-def wS0 : Src := { id := 0, addr := 1, rid := 1, role := .ebgp, lim := some 3 }
-def wS1 : Src := { id := 1, addr := 1, rid := 1, role := .ebgp, lim := some 3 }
+def wS0 : Src := { id := 0, addr := 1, rid := 1, role := .ebgp, lim := some 1 }
+def wS1 : Src := { id := 1, addr := 1, rid := 1, role := .ebgp, lim := some 1 }
 def wA : Attrs :=
   { id := 0, lp := none, origin := none, asPath := none, oid := none, cluster := none, comm := none, ext := none }
-def wN : Net := { t2 := false, k := 1 }
+def wN1 : Net := { t2 := false, k := 1 }
+def wN2 : Net := { t2 := false, k := 2 }
 
-/-- a session of peer 1 announces a prefix, goes down (its paths are kept as stale), and a new session
-    of the same peer re-announces the prefix: the new session's counter stays 0 while it has a prefix -/
+/-- a session of peer 1 (limit: one prefix) announces a prefix and goes down (its path is kept as
+    stale); a new session of the same peer announces ANOTHER prefix: the peer now has two prefixes in the
+    RIB, no limit was signalled (the new session's own counter is 1) -/
 def wCase : Case :=
   { srcs := [wS0, wS1], attrs := [wA],
-    ops := [.insert wS0 .v4 wN 0 none wA false false, .restale 1 .v4, .insert wS1 .v4 wN 0 none wA false false] }
+    ops := [.insert wS0 .v4 wN1 0 none wA false false, .restale 1 .v4, .insert wS1 .v4 wN2 0 none wA false false] }
 
 theorem wA_wf : wA.WF := ⟨fun _ h => (by cases h), fun _ h => (by cases h), fun _ h => (by cases h)⟩
 
@@ -778,7 +867,7 @@ theorem wCase_fails : SpecC15.check wCase (observe .debug wCase) ≠ .ok := by d
 
 set_option maxRecDepth 100000 in
 theorem wCase_verdict : SpecC15.check wCase (observe .debug wCase) =
-    .fail 2 "limit-counter-ne-recount class=inherited-stale-paths" := by decide
+    .fail 2 "limit-exceeded-not-signalled class=inherited-stale-paths" := by decide
 
 theorem not_C15_full : ¬ C15_full := fun h => wCase_fails (h .debug wCase wCase_wf)
 
